@@ -40,6 +40,62 @@ def model_case(rnd, hist_id):
     return core.case(ops, kind='model')
 
 
+def rand_type(rnd, depth):
+    """random structure typification over X1, X2 (positions 0, 1) and Z"""
+    r = rnd.random()
+    if depth <= 0 or r < 0.25:
+        return ('e', rnd.choice(['$[0]', '$[1]', '$[0]', 'Z']))
+    if r < 0.6:
+        return ('s', rand_type(rnd, depth - 1))
+    return ('t', tuple(rand_type(rnd, depth - 1) for _ in range(rnd.choice([2, 2, 3]))))
+
+
+def type_text(t, top=True):
+    if t[0] == 'e':
+        return t[1]
+    if t[0] == 's':
+        return 'ℬ(' + type_text(t[1]) + ')'
+    inner = '×'.join(type_text(c, False) for c in t[1])
+    return inner if top else '(' + inner + ')'
+
+
+def rand_value(rnd, t, nelem):
+    if t[0] == 'e':
+        return {'v': rnd.randint(1, max(nelem, 1)) if t[1] != 'Z' else rnd.choice([0, 1, 7, 100000])}
+    if t[0] == 't':
+        return {'t': [rand_value(rnd, c, nelem) for c in t[1]]}
+    n = rnd.choice([0, 0, 1, 2, 3])
+    return {'s': [rand_value(rnd, t[1], nelem) for _ in range(n)]}
+
+
+def rich_model_case(rnd, hist_id):
+    """structures of random nested typification holding random data (many empty components), terms over them"""
+    m = 'm'
+    ops = [{'op': 'env.processor', 'mode': 'default'}, {'op': 'form.seed', 'seed': hist_id}, {'op': 'model.op', 'm': m, 'k': 'new'}]
+    ops.append({'op': 'model.op', 'm': m, 'k': 'emplace', 'type': 'basic'})
+    ops.append({'op': 'model.op', 'm': m, 'k': 'emplace', 'type': 'basic'})
+    nelem = rnd.randint(1, 4)
+    for b in (0, 1):
+        for k in range(nelem):
+            ops.append({'op': 'model.op', 'm': m, 'k': 'addelem', 'uid': {'idx': b}, 'name': f'e{b}{k}'})
+    nstruct = rnd.randint(1, 4)
+    types = []
+    for _ in range(nstruct):
+        t = ('s', rand_type(rnd, 3))
+        types.append(t)
+        ops.append({'op': 'model.op', 'm': m, 'k': 'emplace', 'type': 'structure', 'def': type_text(t)})
+    for i, t in enumerate(types):
+        if rnd.random() < 0.85:
+            ops.append({'op': 'model.op', 'm': m, 'k': 'setstruct', 'uid': {'idx': 2 + i}, 'value': rand_value(rnd, t, nelem)})
+    for i in range(rnd.randint(0, 4)):
+        j = 2 + rnd.randrange(nstruct)
+        ops.append({'op': 'model.op', 'm': m, 'k': 'emplace', 'type': 'term', 'def': rnd.choice(['$[%d]', 'ℬ($[%d])', '{$[%d]}', '$[%d]×$[%d]', 'red({$[%d]})', '$[%d]\\$[%d]', 'D{x∈$[%d] | x=x}']).replace('%d', str(j))})
+    if rnd.random() < 0.8:
+        ops.append({'op': 'model.op', 'm': m, 'k': 'recalcall'})
+    ops.append({'op': 'model.snap', 'm': m, 'json': True})
+    return core.case(ops, kind='model', rich=True)
+
+
 def strip(doc):
     return doc
 
@@ -143,7 +199,7 @@ def judge(res, cs, cr):
     res.judged(repr(cs['ops']), nontrivial=nontrivial)
     res.counters['judged'] -= 1
     res.count('objects')
-    res.cover('kind:' + kind)
+    res.cover('kind:' + kind + ('-rich' if cs['meta'].get('rich') else ''))
     if nontrivial:
         res.sample({'kind': kind, 'constituents': {it['alias']: it['def'] for it in list(items.values())[:6]}, 'document_items': len(doc1.get('items', []))}, limit=1)
 
@@ -152,8 +208,10 @@ def run_shard(desc, env):
     res = core.ShardResult()
     rnd = env.rng('c10', desc['kind'], desc['i'])
     n = 40 if env.tier == 'quick' else 900
-    make = form_case if desc['kind'] == 'form' else model_case
-    cases = [make(rnd, desc['i'] * 100000 + k) for k in range(n)]
+    if desc['kind'] == 'form':
+        cases = [form_case(rnd, desc['i'] * 100000 + k) for k in range(n)]
+    else:
+        cases = [(rich_model_case if k % 3 == 2 else model_case)(rnd, desc['i'] * 100000 + k) for k in range(n)]
     for cs, cr in env.execute(cases, chunk=20):
         judge(res, cs, cr)
     return res
